@@ -427,6 +427,39 @@ func c18Direct(s *sys.System, r c18Req, gens map[string]bool) c18Result {
 		}
 		sort.Strings(vals)
 		return c18Result{true, strings.Join(vals, "|")}
+	case "stats":
+		// (the counters themselves belong to the cached instance)
+		if _, err := s.GetLocationStats(ctx, loc); err != nil {
+			return fail
+		}
+		return c18Result{true, "okay"}
+	case "clearStats":
+		if err := s.ClearLocationStats(ctx, loc); err != nil {
+			return fail
+		}
+		return c18Result{true, "okay"}
+	case "getRule":
+		id, _ := str("id")
+		js, err := s.GetRule(ctx, loc, id)
+		if err != nil {
+			return fail
+		}
+		return c18Result{true, js}
+	case "searchRules":
+		ev, ok := mp("event")
+		if !ok {
+			return fail
+		}
+		rs, err := s.SearchRules(ctx, loc, ev, p["inherited"] == true)
+		if err != nil {
+			return fail
+		}
+		var ids []string
+		for id := range rs {
+			ids = append(ids, id)
+		}
+		sort.Strings(ids)
+		return c18Result{true, strings.Join(ids, ",")}
 	case "size":
 		n, err := s.GetSize(ctx, loc)
 		if err != nil {
